@@ -1,6 +1,6 @@
 # registry fragment for C19 (exec'd by tools/checks.py with CHECKS, ASSUME_COMMON, NOT_APPLICABLE in scope)
-_c19_a = ['g8', 'g8s', 'g16', 'g16s', 'g8_u8', 'g16_l', 'rgb8_1', 'rgba16_3', 'd2_8', 'd2_8s', 'rgb8_20', 'rgb16_01']
-_c19_b = ['rgb8', 'rgb8s', 'rgb16', 'rgba8_310', 'rgba8', 'rgba16s']
+_c19_a = ['g8', 'g8s', 'g16', 'g16s', 'g8_u8', 'g16_l', 'rgb8_1', 'rgba16_3', 'd2_8', 'd2_8s', 'd2_8_10', 'rgb8_20', 'rgb16_01']
+_c19_b = ['rgb8', 'rgb8s', 'rgb8_210', 'rgb16', 'rgba8_310', 'rgba8', 'rgba16s']
 _c19_q4 = ['g8', 'g8s', 'g16', 'rgb8_1', 'd2_8', 'rgb8_20', 'rgb8', 'rgb8s', 'rgba8']
 CHECKS['C19'] = dict(
     level='exploration',
